@@ -9,3 +9,16 @@ import "context"
 func (r *WALReader) VerifPageMap(ctx context.Context, maxBytes int64) (m map[uint32]int64, maxOffset int64, commit uint32, limited bool, err error) {
 	return r.pageMap(ctx, maxBytes)
 }
+
+// VerifPhaseHook, when set, is called synchronously at the named points of
+// the sync / checkpoint / snapshot / close pipeline so the external
+// verification harness can own the interleaving of application transactions
+// with litestream's own steps. Without the verif build tag verifPhase is an
+// empty function.
+var VerifPhaseHook func(db *DB, phase string)
+
+func verifPhase(db *DB, phase string) {
+	if h := VerifPhaseHook; h != nil {
+		h(db, phase)
+	}
+}
